@@ -441,6 +441,14 @@ def same_member(v, m):
 def judge_discrete(spec, rec):
     members = [build_member(e) for e in spec['members']]
     snapshot = [np.array(m, copy=True) if isinstance(m, MathArray) else m for m in members]
+    if any(isinstance(m, MathArray) for m in members):
+        # a look-alike set built (and drawn from) first: the same structure, array members that differ from the listed ones
+        # only in the 12th significant digit - below what an array's printed form shows (a seeded change remembered
+        # validated configurations by their repr)
+        alike = [MathArray(np.asarray(m) * (1 + 1e-11) + 1e-11) if isinstance(m, MathArray) else m for m in members]
+        rival = DiscreteSet(alike[0]) if spec['single'] else DiscreteSet(tuple(alike))
+        rival.gen_sample()
+        rec.cls('discrete/look-alike-set-built-first')
     if spec['single']:
         s = DiscreteSet(members[0])
         members = members[:1]
